@@ -10,8 +10,6 @@ import (
 	"encoding/json"
 	"fmt"
 	"net/netip"
-	"sort"
-	"strings"
 	"testing"
 	"time"
 
@@ -41,6 +39,7 @@ type c16Op struct {
 
 type c16Beh struct {
 	Kind   string     `json:"kind"`
+	Rk     string     `json:"rk"`
 	Routes []c16Route `json:"routes"`
 	Ops    []c16Op    `json:"ops"`
 }
@@ -65,16 +64,17 @@ func c16ROA(r c16Rec) *ROA {
 	return NewROA(fam, pfx.Addr().AsSlice(), uint8(pfx.Bits()), r.M, r.A, c16Srcs[r.C])
 }
 
-func c16Status(s oc.RpkiValidationResultType) string {
+// verdict codes (spec/RpkiDom.tla VerdictCode): 0 not-found, 1 valid, 2 invalid, 9 anything else
+func c16Status(s oc.RpkiValidationResultType) int {
 	switch s {
 	case oc.RPKI_VALIDATION_RESULT_TYPE_VALID:
-		return "valid"
+		return 1
 	case oc.RPKI_VALIDATION_RESULT_TYPE_INVALID:
-		return "invalid"
+		return 2
 	case oc.RPKI_VALIDATION_RESULT_TYPE_NOT_FOUND:
-		return "notfound"
+		return 0
 	}
-	return "other:" + string(s)
+	return 9
 }
 
 func c16Path(rt c16Route) *Path {
@@ -118,28 +118,28 @@ func c16Policy() *RoutingPolicy {
 	return r
 }
 
-func c16Mark(p *Path) string {
+// c16Mark: which statement of the policy matched, as a verdict code; 9 if none or several did
+func c16Mark(p *Path) int {
 	if p == nil {
-		return "rejected"
+		return 9
 	}
-	marks := []string{}
+	marks := []int{}
 	for _, v := range p.GetCommunities() {
 		switch v {
 		case 65000<<16 | 1:
-			marks = append(marks, "valid")
+			marks = append(marks, 1)
 		case 65000<<16 | 2:
-			marks = append(marks, "invalid")
+			marks = append(marks, 2)
 		case 65000<<16 | 3:
-			marks = append(marks, "notfound")
+			marks = append(marks, 0)
 		default:
-			marks = append(marks, fmt.Sprintf("other:%d", v))
+			marks = append(marks, 9)
 		}
 	}
-	if len(marks) == 0 {
-		return "nomatch"
+	if len(marks) != 1 {
+		return 9
 	}
-	sort.Strings(marks)
-	return strings.Join(marks, "+")
+	return marks[0]
 }
 
 func TestVerifC16(t *testing.T) {
@@ -178,7 +178,7 @@ func TestVerifC16(t *testing.T) {
 				covers = append(covers, []any{op.R.P, r.Pfx, c})
 			}
 		}
-		tr.Emit(map[string]any{"ev": "Reset", "tid": tid, "kind": b.Kind, "routes": b.Routes, "covers": covers})
+		tr.Emit(map[string]any{"ev": "Reset", "tid": tid, "kind": b.Kind, "rk": b.Rk, "nroutes": len(b.Routes), "covers": covers})
 		for _, op := range b.Ops {
 			row := map[string]any{"ev": op.Op, "v": op.V}
 			switch op.Op {
@@ -203,13 +203,13 @@ func TestVerifC16(t *testing.T) {
 				ones, _ := x.Network.Mask.Size()
 				table = append(table, c16Rec{C: c16SrcName(x.Src), P: fmt.Sprintf("%s/%d", x.Network.IP.String(), ones), M: x.MaxLen, A: x.AS})
 			}
-			val := []string{}
-			marks := []string{}
+			val := []int{}
+			marks := []int{}
 			if op.V {
 				for _, p := range paths {
 					v := rt.Validate(p)
 					if v == nil {
-						val = append(val, "nil")
+						val = append(val, 9)
 					} else {
 						val = append(val, c16Status(v.Status))
 					}
